@@ -516,8 +516,9 @@ def _boundary_case(rng, op, axes, where):
         args = [P(k), P(d), P(s), P(p), fbits([0.0, 0.0, 1.5][(L[0] + L[1]) % 3])]
     else:       # fold: as many columns as there are windows; where no window fits, the count an axis of ONE window would give
         cols = int(np.prod([x if x else 1 for x in lo])) if not fits or (sum(L) % 5) else int(np.prod(lo))
-        # (zero columns with a geometry without windows: the unchanged fold answers zeros of output_size instead of raising — reported
-        #  as a finding, see notes; `cols = 0` here makes it part of the enumeration once it is fixed or recorded in known_findings.jsonl)
+        # zero columns with a geometry without windows (every third such case): fold folded them into zeros of output_size instead of
+        # raising until fix 4f1f1a6 (known_findings.jsonl)
+        if not fits and (sum(L) + sum(k)) % 3 == 0: cols = 0
         leaves = [V((n, c * k[0] * k[1], cols))]
         args = [P(L), P(k), P(d), P(s), P(p)]
     cs = {'kind': 'op', 'op': op, 'leaves': leaves, 'args': args, 'malformed': not fits,
